@@ -36,7 +36,7 @@ structure Ldb where
   frontier : Raw                       -- raw key space under frontierByte (prefix stripped); tombstones stay forever
   rollbacks : List (Nat × Patch)       -- rollbackByte ‖ height ↦ undo patch
   patches : List (Nat × Patch)         -- patchByte ‖ height ↦ redo patch
-  deriving Repr
+  deriving DecidableEq, Repr
 
 def Ldb.empty : Ldb := ⟨[], [], []⟩
 
